@@ -449,7 +449,7 @@ def check_C11(tier, seed, t0):
         trace_module="TraceKernel.tla", trace_cfg="TraceKernel.cfg", driver_of=lambda d: "drv_matop_" + [x.split("=")[1] for x in d.split(";") if x.startswith("part=")][0], extra_cov=dict(exhaustive=True))
 
 
-FIXED_AUX = {"C17": ["mode=lobpcg;count=1;seed=5;kfix=1"], "C15": ["mode=davidson;count=1;seed=3;dec=1"],
+FIXED_AUX = {"C17": ["mode=lobpcg;count=1;seed=5;kfix=1", "mode=lobpcg;seed=51;case=24"], "C15": ["mode=davidson;count=1;seed=3;dec=1"],
              "C16": ["mode=svdmult;seed=1;mult=5;ncv=12"]}
 
 
